@@ -210,7 +210,8 @@ class Gen:
                 if n.lower() not in own_names(s)["CType"]:
                     s["types"].append({"name": n, "extends": None, "comps": [], "binds": [], "finals": []})
             for _ in range(rng.randint(0, 1 if depth else 2)):
-                n = self.pick(ABS_NAMES, self.p_reuse)
+                # sometimes the name of a procedure of another scope (an inner abstract interface hides it)
+                n = self.pick(PROC_NAMES if (self.p_reuse > 0.3 and rng.random() < 0.25) else ABS_NAMES, self.p_reuse)
                 if n.lower() not in own_names(s)["CAbs"] + own_names(s)["CProc"]:
                     s["absints"].append(new_scope(n, "absbody"))
             if depth < 2:
